@@ -11,9 +11,10 @@ from props import gearseq_lib as L
 ID = "C08"
 MODULE = "DaliVerif.Props.C08"
 EXES = ["m_gearseq"]
-GEN = False
+GEN = True
 THEOREMS = ["qdt_conforming", "qdt_silent", "qdt_collision", "qdt_bus", "qdt_adversarial",
-            "queryGroups_spec", "setGroups_spec"]
+            "queryGroups_spec", "setGroups_spec",
+            "cmd_sendtwice_gen", "cmd_frames_gen"]
 TRUSTED = ["hand-written models Model/GearSeq.lean of QueryDeviceTypes (as repaired), QueryGroups, SetGroups "
            "(dali/sequences.py), tied by lock-step execution of the real generators",
            "specification bus Spec/GearBus.lean: my reading of IEC 62386-102 (QUERY (NEXT) DEVICE TYPE, "
